@@ -64,6 +64,7 @@ def getCodec (j : Json) : Except String Codec := do
 def variantOf (j : Json) : Variant :=
   match j.getObjValAs? String "variant" with
   | .ok "previous" => previous
+  | .ok "legacy" => legacy
   | _ => fixed
 
 def jOptNat : Option Nat → Json
